@@ -28,13 +28,16 @@ type ToolFault string
 
 const (
 	TFNone         ToolFault = ""
-	TFCannotStart  ToolFault = "cannot-start"   // exec fails (ENOENT / EACCES / EAGAIN)
-	TFKilled       ToolFault = "killed"         // terminated by a signal, no output
-	TFKilledOutput ToolFault = "killed-partial" // terminated by a signal after writing part of its output
-	TFNonzeroEmpty ToolFault = "nonzero-empty"  // exits 1 without output
-	TFGarbage      ToolFault = "garbage"        // shellcheck only: prints something that is not JSON
-	TFEpipe        ToolFault = "epipe"          // exits before reading stdin: status 1, no output
-	TFEmptyOK      ToolFault = "empty-exit-0"   // shellcheck only: exits 0 and prints nothing at all (not JSON)
+	TFCannotStart  ToolFault = "cannot-start"      // exec fails (ENOENT / EACCES / EAGAIN)
+	TFKilled       ToolFault = "killed"            // terminated by a signal, no output
+	TFKilledOutput ToolFault = "killed-partial"    // terminated by a signal after writing part of its output
+	TFNonzeroEmpty ToolFault = "nonzero-empty"     // exits 1 without output
+	TFGarbage      ToolFault = "garbage"           // shellcheck only: prints something that is not JSON
+	TFEpipe        ToolFault = "epipe"             // exits before reading stdin: status 1, no output
+	TFEmptyOK      ToolFault = "empty-exit-0"      // shellcheck only: exits 0 and prints nothing at all (not JSON)
+	TFJSONGarbage  ToolFault = "json-then-garbage" // shellcheck only: a valid JSON array followed by a crash message
+	TFNullElement  ToolFault = "null-element"      // shellcheck only: valid JSON with a null element: [null]
+	TFNoNewline    ToolFault = "no-final-newline"  // pyflakes only: the output is cut off in the middle of the last line
 )
 
 // ToolIssue is one issue a simulated tool prints.
@@ -180,6 +183,13 @@ func (t *Tools) Run(argv []string, stdin string) kern.ToolResult {
 		return kern.ToolResult{ExitCode: 1}
 	case TFEmptyOK:
 		return kern.ToolResult{ExitCode: 0}
+	case TFJSONGarbage:
+		return kern.ToolResult{ExitCode: code, Stdout: append(append([]byte{}, stdout...), []byte("shellcheck: internal error: <<loop>>\n")...)}
+	case TFNullElement:
+		return kern.ToolResult{ExitCode: 1, Stdout: []byte("[null]\n")}
+	case TFNoNewline:
+		out := []byte("<stdin>:1:1: 'os' imported but unus")
+		return kern.ToolResult{ExitCode: 1, Stdout: out}
 	case TFGarbage:
 		return kern.ToolResult{ExitCode: code, Stdout: []byte("shellcheck: internal error <<not json>>\n")}
 	}
